@@ -8,6 +8,7 @@ CONSTANTS
   ShardCaps = {1}
   BatchMaxes = {1}
   Modes = {"shared"}
+  Admission = "atomic"
 CONSTRAINT Track
 INVARIANTS Conform
 PROPERTIES C28_AckOrder C28_ExactlyOne C28_OutboundOrder C28_OutboundComplete C28_DrainFence C28_DrainCompletes
